@@ -25,6 +25,8 @@ from hashlib import md5
 from bidict import bidict
 
 _IPv4_OCTET_PATTERN = r"(25[0-5]|(2[0-4]|1?[0-9])?[0-9])"
+# Octet without leading zeros, as required inside IPv4-embedded IPv6 addresses
+_IPv4_STRICT_OCTET_PATTERN = r"(25[0-5]|2[0-4][0-9]|1[0-9]{2}|[1-9]?[0-9])"
 
 # Match address starting at beginning of line or surrounded by these, appropriate enclosing chars
 _IPv4_ENCLOSING = (
@@ -49,7 +51,17 @@ IPv4_PATTERN = re.compile(
 # Modified from https://stackoverflow.com/a/17871737/1715495
 IPv6_PATTERN = re.compile(
     r"(?:(?<=^)|(?<={enclosing}))".format(enclosing=_IPv6_ENCLOSING)
-    + r"(([0-9a-f]{1,4}:){7,7}[0-9a-f]{1,4}"
+    # Addresses ending in a dotted quad (IPv4-embedded) must be tried first, otherwise
+    # a shorter alternative matches only the part before the first dot
+    + r"((([0-9a-f]{{1,4}}:){{6}}|::([0-9a-f]{{1,4}}:){{0,5}}"
+    r"|[0-9a-f]{{1,4}}::([0-9a-f]{{1,4}}:){{0,4}}"
+    r"|([0-9a-f]{{1,4}}:){{2}}:([0-9a-f]{{1,4}}:){{0,3}}"
+    r"|([0-9a-f]{{1,4}}:){{3}}:([0-9a-f]{{1,4}}:){{0,2}}"
+    r"|([0-9a-f]{{1,4}}:){{4}}:([0-9a-f]{{1,4}}:)?"
+    r"|([0-9a-f]{{1,4}}:){{5}}:)({octet}\.){{3}}{octet}(?![.])".format(
+        octet=_IPv4_STRICT_OCTET_PATTERN
+    )
+    + r"|([0-9a-f]{1,4}:){7,7}[0-9a-f]{1,4}"
     r"|([0-9a-f]{1,4}:){1,7}:"
     r"|([0-9a-f]{1,4}:){1,6}:[0-9a-f]{1,4}"
     r"|([0-9a-f]{1,4}:){1,5}(:[0-9a-f]{1,4}){1,2}"
@@ -58,10 +70,8 @@ IPv6_PATTERN = re.compile(
     r"|([0-9a-f]{1,4}:){1,2}(:[0-9a-f]{1,4}){1,5}"
     r"|[0-9a-f]{1,4}:((:[0-9a-f]{1,4}){1,6})"
     r"|:((:[0-9a-f]{1,4}){1,7}|:)"
-    r"|fe80:(:[0-9a-f]{0,4}){0,4}%[0-9a-z]{1,}"
-    + r"|::(ffff(:0{{1,4}})?:)?({octet}\.){{3}}{octet}"
-    r"|([0-9a-f]{{1,4}}:){{1,4}}:({octet}\.){{3}}{octet})"
-    r"(?={enclosing}|$)".format(enclosing=_IPv6_ENCLOSING, octet=_IPv4_OCTET_PATTERN),
+    r"|fe80:(:[0-9a-f]{0,4}){0,4}%[0-9a-z]{1,})"
+    + r"(?={enclosing}|$)".format(enclosing=_IPv6_ENCLOSING),
     re.IGNORECASE,
 )
 
